@@ -353,6 +353,13 @@ def warm_model(m, roles, salt=''):
             m.alphanumeric_order(r)
             m.invert(('p', r, 'q'))
             m.deinvert(('p', r, 'q'))
+            m.is_concept_dereifiable(r[1:])
+            for probe_call in (lambda: m.reify(('p', r, 'q')),
+                               lambda: m.dereify(('x', ':instance', r[1:]), ('x', r, 'p'), ('x', r + '9', 'q'))):
+                try:
+                    probe_call()        # refusing (ModelError) is a documented answer and must not change the model either
+                except Exception:  # noqa
+                    pass
         g = Graph([('p', ':instance', 'probe')] + [('p', r, 'q' if i % 2 else 5) for i, r in enumerate(probe)] + [('q', ':instance', None)])
         m.errors(g)
     except Exception:  # noqa
